@@ -72,7 +72,7 @@ int main(int argc, char **argv) {
         int p = personality(0xffffffff);
         if (p != -1 && !(p & ADDR_NO_RANDOMIZE) && personality(p | ADDR_NO_RANDOMIZE) != -1) { setenv("DSIM_NOASLR", "1", 1); execv("/proc/self/exe", argv); }
     }
-    u64 start = 1, count = 1; bool one = false; double budget_s = 0; bool samples = true;
+    u64 start = 1, count = 1; bool one = false; bool fplist = false; double budget_s = 0; bool samples = true;
     u64 decseed = 0; bool have_decseed = false;
     for (int i = 1; i < argc; i++) {
         if (!strcmp(argv[i], "--batch") && i + 2 < argc) { start = strtoull(argv[i + 1], 0, 10); count = strtoull(argv[i + 2], 0, 10); i += 2; }
@@ -85,6 +85,7 @@ int main(int argc, char **argv) {
         else if (!strcmp(argv[i], "--faults") && i + 1 < argc) G.faults_on = atoi(argv[++i]) != 0;
         else if (!strcmp(argv[i], "--tier") && i + 1 < argc) G.tier = !strcmp(argv[++i], "thorough") ? 1 : 0;
         else if (!strcmp(argv[i], "--nosamples")) samples = false;
+        else if (!strcmp(argv[i], "--fplist")) fplist = true;
         else { fprintf(stderr, "unknown argument %s\n", argv[i]); return 2; }
     }
     (void)have_decseed; (void)decseed;
@@ -114,6 +115,7 @@ int main(int argc, char **argv) {
         B.cur = s;
         run_one(s);
         account_run();
+        if (fplist) oprintf("F %llu %016llx %llu\n", (unsigned long long)s, (unsigned long long)G.fp, (unsigned long long)G.steps);
         if (samples && B.runs <= 2) { oprintf("{\"t\":\"R\",\"status\":\"ok\","); emit_run_fields(); oprintf("}\n"); }
         if (budget_s > 0 && (B.runs & 15) == 0 && now_s() - B.t0 > budget_s) { s++; break; }
     }
